@@ -25,7 +25,10 @@ type Violation struct {
 	Msg       string `json:"msg"`
 }
 
-func (v *Violation) class() string { return v.Property + "/" + v.Oracle }
+// class is what the shrinker must preserve. The signature is part of it: known findings are
+// matched by (property, oracle, signature), so a shrink that drifted from one signature to
+// another could turn a new violation into a listed one (or the reverse).
+func (v *Violation) class() string { return v.Property + "/" + v.Oracle + "/" + v.Signature }
 
 // Result is what an engine reports for one simulated run.
 type Result struct {
